@@ -10,3 +10,6 @@ package text
 //@   trusted used at call sites as an unknown-but-deterministic string; its own posts (valid, exported, no underscore) are checked by the bounded stand-in of /verif (C14), not proved
 //@   option pure
 //@   assigns nothing
+
+//@ func (*Caser).Identifierize@drops
+//@   errdrop WriteString: strings.Builder writes never fail
